@@ -38,11 +38,11 @@ pub fn run(ctx: &Ctx) {
     let free = D | ND | S | NS | W | NW | R | I | G | X | NA | NE;
     let others = lattice_le(0, free, if thorough { 2 } else { 1 });
     let mut cases: Vec<(Vec<String>, Cfg)> = vec![];
-    let stride = if thorough { 1 } else { 29 };
+    let stride = if thorough { 7 } else { 29 };
     for i in 0..u.len() {
         let t = u.set(i);
         for (j, o) in others.iter().enumerate() {
-            // quick: singles get every setting; pairs get every 29th (rotating with the set index so all settings meet pairs of every shape)
+            // singles get every setting; pairs get every 29th (quick) / 7th (thorough) setting, rotating with the set index so that all settings meet pairs of every shape
             if t.len() > 1 && (i + j) % stride != 0 {
                 continue;
             }
